@@ -1,7 +1,7 @@
 (* C10 constraint impulses: G qd+ = v+, H (qd+ - qd-) + G^T Lambda = 0 (written H qd+ + G^T Lambda = H qd-),
    uniqueness (the three methods agree), and a feasible pre-impact velocity is returned unchanged. *)
 From Coq Require Import List.
-From RV Require Import Scalar Laws ListArr LinDef LinThm ModelDef KinDef DynDef ConsDef ConsThm.
+From RV Require Import Scalar Laws ListArr LinDef LinThm ModelDef KinDef DynDef ConsDef ConsThm C14Thm DimThm.
 Import ListNotations.
 Section P.
   Context {T : Type} (O : Ops T) {FL : FieldLaws O}.
@@ -28,7 +28,16 @@ Section P.
     length c = n -> length gam = m -> kkt_solve O H G c gam n m = Some (u, x) ->
     length u' = n -> length x' = m -> KKTeq O H G n c gam u' x' -> u' = u /\ x' = x.
   Proof. intros WH LG LGr. exact (kkt_solve_unique O oeqb_spec H G n m WH LG LGr c gam u x u' x'). Qed.
+  Theorem C10_impulse_equations_constructed_models (M : @Model T) (w : @WS T) q qdm cs vplus w' qdp Lam :
+    WF M -> length vplus = length cs ->
+    constraint_impulses O M w q qdm cs vplus = (w', Some (qdp, Lam)) ->
+    let n := dof_count M in
+    let Hm := snd (crba O M (ukc_q O M w q) q (zerosM O n n) false) in
+    let G := cons_G O M (fst (crba O M (ukc_q O M w q) q (zerosM O n n) false)) cs in
+    vadd O (mvmul O Hm qdp) (mTvmul O G n Lam) = mvmul O Hm qdm /\ mvmul O G qdp = vplus.
+  Proof. intros W. exact (impulses_equations_sized O oeqb_spec M w q qdm cs vplus w' qdp Lam (wf_qdot M W)). Qed.
 End P.
 Print Assumptions C10_impulse_equations.
 Print Assumptions C10_feasible_velocity_unchanged.
 Print Assumptions C10_methods_agree.
+Print Assumptions C10_impulse_equations_constructed_models.
